@@ -2,6 +2,7 @@ import UtilModel.Core.LTSHash
 import UtilModel.Core.LTSComplete
 import UtilModel.CContainer.Props
 import UtilModel.CContainer.Quot
+import UtilModel.CContainer.WQuot
 /-!
 # CContainer — end-to-end transfer
 
@@ -61,5 +62,44 @@ theorem reject_sound_ccontainer (cap fuel : Nat) (h : List CContainer.Obs) (i : 
     ¬ ∃ es s, CContainer.model.run CContainer.model.init es = some s ∧
       es.filterMap CContainer.model.obs = h :=
   rejectH_sound_quot CContainer.model complete_ccontainer quotok_ccontainer cap fuel h i hfail htr
+
+
+/-! ## the layered model `wmodel` (WatchChanges), the one the driver checks against
+
+The core theorems lift: internal events of `wmodel` are exactly the internal core events, and the
+state equality of `WSt` is the core quotient plus equality of the watcher table
+(`CContainer/WQuot.lean`). -/
+
+theorem complete_ccontainer_w : CContainer.wmodel.Complete := by
+  refine ⟨?_, ?_⟩
+  · intro s e s' hs ho
+    show e ∈ (CContainer.internalCands s.core.th.length).map .core
+    change CContainer.wstep s e = some s' at hs
+    change e.obs = none at ho
+    cases e <;> simp [CContainer.WEv.obs] at ho
+    rename_i e0
+    exact List.mem_map.mpr ⟨e0, complete_ccontainer.cands s.core e0 s'.core
+      (CContainer.wstep_core s s' e0 hs).1 ho, rfl⟩
+  · intro s e s' o _hs ho
+    show e ∈ [o.ev]
+    change e.obs = some o at ho
+    cases e <;> simp [CContainer.WEv.obs] at ho
+    case core e0 =>
+      obtain ⟨o0, ho0, rfl⟩ := ho
+      simp [CContainer.WObs.ev]
+      exact (CContainer.Ev.obs_ev e0 o0 ho0).symm
+    all_goals (subst ho; simp [CContainer.WObs.ev])
+
+theorem quotok_ccontainer_w : CContainer.wmodel.QuotOK := CContainer.wquotok
+
+/-- **A REJECT of the CContainer/WatchChanges correspondence is about the model**: when the driver's
+run fails at an observable without having hit the exploration bounds, no run of the layered model
+projects to the recorded history. -/
+theorem reject_sound_ccontainer_w (cap fuel : Nat) (h : List CContainer.WObs) (i : Nat)
+    (hfail : (CContainer.wmodel.accRunH cap fuel [CContainer.wmodel.init] h 0 false 1).failedAt = some i)
+    (htr : (CContainer.wmodel.accRunH cap fuel [CContainer.wmodel.init] h 0 false 1).truncated = false) :
+    ¬ ∃ es s, CContainer.wmodel.run CContainer.wmodel.init es = some s ∧
+      es.filterMap CContainer.wmodel.obs = h :=
+  rejectH_sound_quot CContainer.wmodel complete_ccontainer_w quotok_ccontainer_w cap fuel h i hfail htr
 
 end UtilModel
